@@ -137,50 +137,6 @@ def run_tlc(name, module, cfg=None, workers=4, extra=None, env=None, timeout=360
     if m:
         r.stuck = m.group(0)[:600]
     if coverage:
-        cmd += ["-coverage", "1"]
-    if extra:
-        cmd += extra
-    e = {}
-    if env:
-        e.update(env)
-    if xmx:
-        e["TLC_XMX"] = "-Xmx" + xmx
-    t0 = time.time()
-    rc, o = sh(cmd, timeout=timeout, env=e)
-    r = TlcResult()
-    r.rc, r.out, r.wall = rc, o, time.time() - t0
-    for line in o.splitlines():
-        m = RE_STATES.match(line)
-        if m:
-            r.generated, r.distinct = int(m.group(1)), int(m.group(2))
-        if line.startswith('<<"REPLAY", "'):
-            js = unescape_tla(line[len('<<"REPLAY", "'):-3])
-            try:
-                r.replay.append(json.loads(js))
-            except Exception as ex:
-                raise ToolError("cannot parse REPLAY line: %s: %s" % (ex, line[:200]))
-        elif line.startswith('<<"VIOL", '):
-            m2 = re.match(r'<<"VIOL", (\d+), "([^"]*)", \{(.*)\}>>', line)
-            if m2:
-                tags = [t.strip().strip('"') for t in m2.group(3).split(",") if t.strip()]
-                r.viol.append((int(m2.group(1)), m2.group(2), tags))
-            else:
-                r.errors.append("unparsed VIOL line: " + line)
-        elif line.startswith('<<"STATS", "'):
-            try:
-                r.stats = json.loads(unescape_tla(line[len('<<"STATS", "'):-3]))
-            except Exception:
-                pass
-        elif line.startswith('<<"REJECTED"'):
-            r.rejected = line
-        elif line.startswith('<<"STUCK-AT"'):
-            r.stuck = line[:600]
-        elif line.startswith("Error:") or "*** Errors" in line or "Exception" in line:
-            r.errors.append(line)
-        m3 = re.match(r"Error: Invariant (\S+) is violated", line)
-        if m3:
-            r.invariant = m3.group(1)
-    if coverage:
         # an action with zero count means the model never exercised it (vacuity)
         for m in re.finditer(r"^<(\w+) line \d+, col \d+ to line \d+, col \d+ of module (\w+)>: (\d+):(\d+)", o, re.M):
             if int(m.group(4)) == 0 and m.group(1) not in ("Init",):
